@@ -70,6 +70,9 @@ func (v val) typed() string { // typed identity (finer than any rendering)
 func (v val) rendered() (string, bool) {
 	switch x := v.v.(type) {
 	case nil:
+		if nullIsAValue { // null.go: a present null is a member of the value set, distinct from every other value of the domain
+			return nullMark, true
+		}
 		return "", false
 	case string:
 		return x, true
@@ -91,13 +94,17 @@ type spanT struct{ f, g val }
 
 type traceD struct {
 	spans []spanT
-	root  int // -1 none
+	root  int     // -1 none
+	reps  []uint8 // payload representation per span (null.go); nil = every span map-backed
 }
 
 func (t traceD) String() string {
 	var p []string
 	for i, s := range t.spans {
 		x := fmt.Sprintf("{f=%s g=%s}", s.f.typed(), s.g.typed())
+		if t.reps != nil {
+			x = repNames[t.reps[i]] + x
+		}
 		if i == t.root {
 			x = "ROOT" + x
 		}
@@ -111,6 +118,9 @@ func (t traceD) multiset() string {
 	var p []string
 	for i, s := range t.spans {
 		x := s.f.typed() + "|" + s.g.typed()
+		if t.reps != nil {
+			x = repNames[t.reps[i]] + x
+		}
 		if i == t.root {
 			x = "R" + x
 		}
@@ -139,7 +149,11 @@ func (t traceD) addSpans(tr *types.Trace, from, to int) {
 		if s.g.present {
 			m["g"] = s.g.v
 		}
-		sp := &types.Span{TraceID: "t1", Event: &types.Event{Data: types.NewPayload(mockCfg, m)}}
+		data := types.NewPayload(mockCfg, m)
+		if t.reps != nil && t.reps[i] != repMap {
+			data = msgpackPayload(m, t.reps[i] == repMsgpMemo)
+		}
+		sp := &types.Span{TraceID: "t1", Event: &types.Event{Data: data}}
 		tr.AddSpan(sp)
 		if i == t.root {
 			tr.RootSpan = sp
@@ -206,7 +220,11 @@ func (t traceD) determinant(c keyCfg, typed bool) (det string, valueSets string,
 		}
 		var m []string
 		for s := range set {
-			m = append(m, fmt.Sprintf("%q", s))
+			if s == nullMark {
+				m = append(m, "null") // unquoted: distinct from every (quoted) string
+			} else {
+				m = append(m, fmt.Sprintf("%q", s))
+			}
 		}
 		sort.Strings(m)
 		parts = append(parts, f+"={"+strings.Join(m, ",")+"}")
@@ -443,16 +461,20 @@ func collisionClass(a, b string) string {
 		if strings.HasPrefix(fa, "root.") {
 			kind = "root-field"
 		}
-		strip := func(s string) string {
+		stripM := func(s, member string) string {
 			s = strings.TrimSuffix(strings.TrimPrefix(s, "{"), "}")
 			var keep []string
 			for _, e := range strings.Split(s, ",") {
-				if e != `""` && e != "" {
+				if e != member && e != "" {
 					keep = append(keep, e)
 				}
 			}
 			return strings.Join(keep, ",")
 		}
+		if stripM(sa, "null") == stripM(sb, "null") {
+			return kind + "/sets-differ-only-by-the-null-member"
+		}
+		strip := func(s string) string { return stripM(s, `""`) }
 		if strip(sa) == strip(sb) {
 			return kind + "/sets-differ-only-by-the-empty-string-member"
 		}
@@ -483,10 +505,10 @@ func drawPhase(r *ev.Run) {
 		}
 	}
 	traces := []traceD{
-		{[]spanT{{pv("a"), absent}}, 0},
-		{[]spanT{{pv("a"), pv("a")}, {pv(int64(1)), pv("")}}, 1},
-		{[]spanT{{absent, absent}}, -1},
-		{[]spanT{{pv("a"), absent}, {pv("b"), absent}, {pv("a"), absent}}, -1},
+		{[]spanT{{pv("a"), absent}}, 0, nil},
+		{[]spanT{{pv("a"), pv("a")}, {pv(int64(1)), pv("")}}, 1, nil},
+		{[]spanT{{absent, absent}}, -1, nil},
+		{[]spanT{{pv("a"), absent}, {pv("b"), absent}, {pv("a"), absent}}, -1, nil},
 	}
 	rates := map[string]bool{}
 	for typ, tn := range typeNames {
@@ -583,7 +605,7 @@ func capFamily(r *ev.Run) {
 				s := newSampler(typ, c.fields, c.utl, 2)
 				keys := map[string]string{}
 				for _, vn := range names {
-					_, _, _, key := s.GetSampleRate(traceD{variants[vn], 0}.build())
+					_, _, _, key := s.GetSampleRate(traceD{variants[vn], 0, nil}.build())
 					keys[vn] = key
 					r.Add("cap_family_evaluations", 1)
 				}
@@ -678,6 +700,7 @@ func main() {
 		})
 	}
 	judge(r)
+	nullPhase(r) // present-null values on map-backed and msgpack-backed payloads, null counted as a value in O2 (null.go)
 	capFamily(r)
 	factoryPhase(r) // several samplers built by ONE real factory over a real file configuration (factory.go)
 	drawPhase(r)    // sequential, after all parallel work: nothing else touches math/rand now
@@ -693,7 +716,7 @@ func main() {
 	r.Set("rule", "same typed value sets per configured field (+ span count with UseTraceLength) => same key; all fields present everywhere, no nil, different rendered value sets => different keys; rate >= 1; exactly one value of the random draw in 0..rate-1 keeps; the key does not depend on the other samplers the factory built (factory_rule)")
 	r.Set("bounds", map[string]any{"traces": bounds, "field_lists": fieldLists, "use_trace_length": []bool{false, true}, "samplers": typeNames,
 		"f_values": "absent,1,\"1\",1.5,\"a\",\"\",true,nil", "g_values": "absent,\"a\",\"\",1", "cap_family": "98/99/100/101 distinct values, 6 orderings/duplications"})
-	r.Sample(map[string]any{"example_trace": traceD{[]spanT{{pv(""), pv("a")}, {pv("a"), pv("a")}}, 0}.String()})
+	r.Sample(map[string]any{"example_trace": traceD{[]spanT{{pv(""), pv("a")}, {pv("a"), pv("a")}}, 0, nil}.String()})
 	r.Assume("O2 uses the weakest reading of 'fields are all present': every configured non-root field is present on EVERY span and every root. field on an existing root span; values 1, \"1\", 1.5, \"a\", \"\", true contain neither of the key delimiters ('•' and ','), the empty string included")
 	r.Assume("values are compared by their rendered text for O2 (int 1 and string \"1\" are the same value there) and by type+value for O1 (weaker obligation each time); nil has no documented rendering and is left out of O2")
 	r.Assume("the random draw is the process-global math/rand stream (rand.Intn(rate) in every sampler); it is owned by re-seeding it (GODEBUG randseednop=0) with seeds chosen so that the first Intn(rate) yields each of 0..rate-1 in turn; WindowedThroughput/TotalThroughput only ever report rate 1 (0 clamped to 1) because their adjustment tickers are third-party wall-clock daemons that are never fired")
